@@ -47,7 +47,7 @@ def mat_case(draw, n, m=None, kinds=("int", "dyadic", "complex"), rank=None):
 def exact_pool(mc):
     cplx = mc["kind"] == "complex"
     conv = (lambda x: X.CQ(x[0], x[1])) if cplx else (lambda x: Fraction(x))
-    div = Fraction(1, 8) if mc["kind"] == "dyadic" else Fraction(1)
+    div = {"dyadic": Fraction(1, 8), "tiny": Fraction(1, 4096)}.get(mc["kind"], Fraction(1))
     out = []
     for p in mc["pool"]:
         if "a" in p:
@@ -75,7 +75,7 @@ def to_np(mats, batch, kind):
     a = np.array([[[X.to_complex(x) for x in r] for r in m] for m in mats])
     if kind == "int":
         a = np.real(a).round().astype(np.int64)
-    elif kind == "dyadic":
+    elif kind in ("dyadic", "tiny"):
         a = np.real(a).astype(np.float64)
     return a.reshape(tuple(batch) + a.shape[1:])
 
@@ -103,7 +103,8 @@ def sq_strategy(singular_ok=True):
             rank = None
             if singular_ok and draw(st.integers(0, 3)) == 0:
                 rank = draw(st.integers(1, n - 1))
-            mc = mat_case(draw, n, rank=rank)
+            # "tiny": entries k/4096, determinants down to 1e-15 but exactly invertible (only for the laws without singular input)
+            mc = mat_case(draw, n, rank=rank, kinds=("int", "dyadic", "complex") if singular_ok else ("int", "dyadic", "complex", "tiny"))
             return {"n": n, "batch": batch, "mc": mc, "rank": rank}
 
         return s()
